@@ -281,5 +281,46 @@ CHECKS["C10"] = {
     ],
 }
 
+_LOCK_NOTE = ("Trusted: harness/ref/locks.go (evaluator written from the statement); BIP-340 verification inside the oracle uses btcec's verifier cross-checked against the independent math/big verifier on every 8th call. "
+              "Locktimes are now +- 1 day (never near now). The verdict is necessary-direction everywhere (accepted => condition met) and sufficient-direction only for clean witnesses (only valid signatures by distinct authorised keys, threshold met) and helper-produced witnesses; malformed tags only demand 'no panic'.")
+
+CHECKS["C12"] = {
+    "pkg": "./checks/c12",
+    "level": "exploration",
+    "technique": "property-based differential testing (rapid) of the NUT-11 verifier and of Mint.Swap/MeltTokens against an independent lock evaluator, with configuration-aware witness generation",
+    "rule": ("direct: lock configurations (n_sigs absent/0..4, 0..3 co-signers, lock key listed again, locktime absent/past/future, 0..2 refund keys, sigflag absent/SIG_INPUTS/SIG_ALL, 10% malformed tags of 9 kinds) x witnesses (random lists over lock / co-signer / refund / foreign keys of valid signatures, second different valid signature by the same key, literal duplicates, signatures over a wrong message or the hex string, non-hex, truncated, empty strings; threshold attempts = subset of authorised keys padded with extra signatures of one key up to threshold +-1 in drawn order; refund-signed; witness shapes none / {} / garbage / array / null) on nut11.VerifyP2PKLockedProof; "
+             "end to end: 1..3 really minted locked proofs (same or different conditions) among 0..3 plain proofs in a drawn order through Mint.Swap (outputs unsigned / helper-signed / wrong key / one unsigned / threshold-signed) and Mint.MeltTokens; "
+             "oracle: independent evaluator - accepted => >= max(1,n_sigs) distinct authorised keys (by x coordinate) have a BIP-340-valid signature over sha256(secret) before locktime; after locktime anyone without refund keys else >= 1 refund-key signature; any SIG_ALL input => swap success only if all inputs are SIG_ALL with equal key set and threshold and every output carries enough valid signatures over sha256(bytes of B_) by listed keys, melt refused; clean and helper witnesses accepted. "
+             "non-trivial: verifier reached with a well-formed lock; distinct = (config class, witness features / element list, input order)."),
+    "level_text": "Generated lock configurations, witnesses and input orders against the real verifier and the real mint, judged by an evaluator written from the property statement; failures shrink to a minimal secret/witness pair.",
+    "level_note": _LOCK_NOTE,
+    "assumptions": ["locktime compared at +-1 day only", "lock secrets above 512 bytes are refused by the mint (C04) and carry no sufficiency claim"],
+    "units": [
+        plain("regress", "^TestRegress"),
+        rapid("direct", "^TestDirect$", 4000, 150000, qs=4, ts=16),
+        rapid("e2e", "^TestSwapMelt$", 360, 10000, qs=12, ts=16),
+    ],
+}
+
+CHECKS["C13"] = {
+    "pkg": "./checks/c13",
+    "level": "exploration",
+    "technique": "property-based differential testing (rapid) of the NUT-14 verifier, the library's HTLC witness helpers and Mint.Swap against an independent lock evaluator",
+    "rule": ("direct: HTLC configurations (hash = sha256 of a 0..40-byte preimage lower-case / upper-case / 63 / 65 chars / non-hex / empty; n_sigs absent/0..4; 0..3 listed keys; locktime absent/past/future; 0..2 refund keys; sigflag; 10% malformed tags) x witnesses (preimage right / wrong / non-hex / empty / upper-case x the C12 signature grammar and witness shapes) on nut14.VerifyHTLCProof; "
+             "helpers: nut14.AddWitnessHTLC on the helper domain (signer listed, n_sigs absent/0/1, before locktime) must be accepted by the verifier; "
+             "end to end: really minted HTLC proofs (1..2, plus 0..2 plain) through Mint.Swap with generated witnesses, and helper cases where AddWitnessHTLC and AddWitnessHTLCToOutputs (SIG_ALL) produce every witness and the mint must accept; "
+             "oracle: accepted => preimage hex-decodes and its sha256 equals the 64-char lock value and >= n_sigs distinct listed keys signed (before locktime), refund rule after it; SIG_ALL => every output carries the preimage and enough signatures over sha256(bytes of B_); helper witnesses accepted. "
+             "non-trivial: verifier reached with a well-formed lock; distinct = (config class, preimage kind, witness shape / elements, input order)."),
+    "level_text": "Generated HTLC configurations and witnesses against the real verifier, helpers and mint, judged by the independent evaluator; the helper-produced witnesses are fed to the real Mint.Swap.",
+    "level_note": _LOCK_NOTE + " The wallet-level ReceiveHTLC flow is exercised by the wallet history checks (C17/C08), not here.",
+    "assumptions": ["locktime compared at +-1 day only", "an unparsable witness is read as carrying the empty preimage"],
+    "units": [
+        plain("regress", "^TestRegress"),
+        rapid("direct", "^TestDirect$", 3000, 100000, qs=4, ts=16),
+        rapid("helper_inputs", "^TestHelperInputs$", 600, 20000, qs=2, ts=8),
+        rapid("e2e", "^TestSwap$", 360, 8000, qs=10, ts=16),
+    ],
+}
+
 NOT_APPLICABLE = {}
 HOOK_COMMITS = []
